@@ -10,6 +10,7 @@ CONSTANTS
   NWorkers = 1
   MaxIters = 2
   WalOn = TRUE
+  FailKinds = {"error", "timeout"}
   MaxDown = 1
   MaxRot = 1
   MaxTick = 1
